@@ -313,6 +313,10 @@ func judge(n *node, out *outcome) *verdict {
 		bad("%s", out.silent)
 		return v
 	}
+	if out.belowInitial != "" {
+		bad("%s", out.belowInitial)
+		return v
+	}
 	if out.stuckMax > 0 {
 		lowered := false
 		for _, p := range sc.Peers {
@@ -452,6 +456,36 @@ func syncOnce(t failer, test string, sc *scenario, strictFor string) *verdict {
 	v := judge(n, out)
 	hist := n.history()
 	closed := n.close()
+
+	// crash points inside the sync: whatever prefix of the store mutations a crash leaves behind, the node must be
+	// able to start again (completed writes only; the application replica is fresh and gets the blocks replayed)
+	if len(v.violations) == 0 && closed {
+		total := n.journal.Len()
+		seen := map[int]bool{}
+		cuts := sc.CrashCuts
+		if len(cuts) == 0 {
+			cuts = []int{333, 667, 1000}
+		}
+		for _, c := range cuts {
+			k := c * total / 1000
+			if seen[k] {
+				continue
+			}
+			seen[k] = true
+			if msg := n.restartAfterCrash(k); msg != "" {
+				if strings.HasPrefix(msg, "VERIF-INFRA") {
+					noteInfra(msg)
+					continue
+				}
+				op := "end of journal"
+				if k < total {
+					o := n.journal.Op(k)
+					op = fmt.Sprintf("next write would have been %s on the %s db", o.Kind, o.DB)
+				}
+				v.violations = append(v.violations, fmt.Sprintf("restart after a crash that left the first %d of %d store writes (%s): %s", k, total, op, msg))
+			}
+		}
+	}
 
 	// statistics
 	cls := append([]string{}, v.classes...)
@@ -988,5 +1022,46 @@ func TestRegressNonCanonicalEncoding(t *testing.T) {
 		t.Fatalf("C13 violated ["+findingNonCanonical+"]: consensus accepts a proposal in a non-canonical encoding and would commit it under the part set header of those bytes; "+
 			"a chain whose block 3 was committed that way cannot be block-synced: store at %d of %d after %v, honest peers stopped %d times (hand-over: %v)\nhistory:\n%s",
 			top, n.tip, out.wall.Round(time.Second), stops, out.handover, hist)
+	}
+}
+
+// TestCrashDuringSync (fixed scenario): an all-honest sync of an eight-block chain with a validator change; afterwards
+// the node is restarted from EVERY prefix of its store mutation journal.
+func TestCrashDuringSync(t *testing.T) {
+	for _, initial := range []int64{1, 7} {
+		sc := narrowScenario("right", 4)
+		sc.Initial = initial
+		sc.Heights[2].Updates = []updSpec{{Key: 5, Power: 3}}
+		sc.Peers = sc.Peers[3:] // the honest full peer only
+		sc.Peers[0].JoinAt = 0
+		chain, err := buildChain(sc)
+		if err != nil {
+			t.Fatalf("VERIF-INFRA: %v", err)
+		}
+		n, err := newNode(sc, chain)
+		if err != nil {
+			t.Fatalf("VERIF-INFRA: %v", err)
+		}
+		out, err := n.run(30 * time.Second)
+		if err != nil || !out.handover {
+			n.close()
+			t.Fatalf("VERIF-INFRA: sync did not complete (%v, handover %v)", err, out != nil && out.handover)
+		}
+		top := n.blockStore.Height()
+		n.close()
+		total, bad := n.journal.Len(), 0
+		for k := 0; k <= total; k++ {
+			if msg := n.restartAfterCrash(k); msg != "" {
+				if strings.HasPrefix(msg, "VERIF-INFRA") {
+					t.Fatalf("%s", msg)
+				}
+				bad++
+				if bad <= 3 {
+					t.Errorf("initial height %d, synced to %d: restart after a crash that left the first %d of %d store writes: %s", initial, top, k, total, msg)
+				}
+			}
+		}
+		chain.Close()
+		lib.Case("TestCrashDuringSync", lib.FP(initial, total), true, fmt.Sprintf("journal-prefixes:%d", total+1), fmt.Sprintf("bad:%d", bad))
 	}
 }
